@@ -15,7 +15,7 @@ from ..core import Prop
 class C08(Prop):
     id = "C08"
     corr_module = "Corr.C08Corr"
-    quick_n = 1400
+    quick_n = 900
     thorough_n = 12000
     shard_size = 300
     rule = ("scripted runs of the real Runner through totally ordered event scripts: reads/EOF on stdout and "
@@ -57,9 +57,21 @@ class C08(Prop):
         "poll are modelled",
     ]
 
+    phases = None
+
+    def setup(self, tier, seed):
+        self.phases = rc.Phases()
+        self.phases.mark("proof build (incl. waiting for the shared build lock)")
+        self._first_run = True
+
     def generate(self, rng, tier, n):
+        if self.phases:
+            self.phases.mark("scripted cases + shards")
         if tier == "quick":
-            yield from cases.small_sample(rng, 250)      # a slice of the exhaustive small scope
+            # a slice of the exhaustive small scope (all of it: thorough tier) + generated cases; the ones
+            # that cost real seconds (1 s per expiring join) are capped
+            yield from cases.quick_cases(rng, n, focus=None)
+            return
         for _ in range(n):
             yield cases.gen_case(rng)
 
@@ -101,7 +113,15 @@ class C08(Prop):
 
     # ------------------------------------------------------------------ extra
     def extra_checks(self, tier, seed):
-        return [real_soak(tier), real_findings(tier), termios_check(tier)]
+        if self.phases:
+            self.phases.mark("extra checks")
+        budget = rc.ExtraBudget(tier, 40.0)
+        # one representative of everything first, optional repetitions / reproductions while time is left
+        res = [termios_check(tier), real_findings(tier, budget), real_soak(tier, budget)]
+        if self.phases:
+            self.phases.mark("end")
+            res.append(self.phases.entry())
+        return res
 
 
 # ---------------------------------------------------------------------------
@@ -159,9 +179,9 @@ def with_promise_local():
     return L
 
 
-def real_soak(tier):
+def real_soak(tier, budget):
     """repeated real runs of every outcome class; threads, fds, zombies must not accumulate"""
-    reps = 4 if tier == "quick" else 60
+    reps = 2 if tier == "quick" else 60
     classes = [
         ("exit0", "echo hi", {}, "Result"),
         ("exit3", "echo hi; exit 3", {}, "UnexpectedExit"),
@@ -188,9 +208,11 @@ def real_soak(tier):
             if pty and name == "start-failure":
                 continue            # F-C08a, run in a sandbox below
             for asyn in (False, True):
-                for _ in range(reps if not asyn else max(1, reps // 3)):
+                for rep in range(reps if not asyn else max(1, reps // 3)):
                     if hangs >= 3:
                         break               # a hang costs its whole bound: three are evidence enough
+                    if rep > 0 and not budget.allow("soak repetition"):
+                        continue            # the class has run once; further repetitions are optional
                     evals += 1
                     k = dict(kw, hide=True, pty=pty)
                     cls, jd, pipe_w = None, 0.0, None
@@ -222,7 +244,7 @@ def real_soak(tier):
                         cmd_ = cmd
                     if asyn:
                         k["asynchronous"] = True
-                    r = rc.run_real(cmd_, bound=12.0, runner_cls=cls, join_delay=jd, **k)
+                    r = rc.run_real(cmd_, bound=8.0, runner_cls=cls, join_delay=jd, **k)
                     if pipe_w is not None:
                         os.close(pipe_w)
                         k["in_stream"].close()
@@ -231,7 +253,7 @@ def real_soak(tier):
                     case = {"class": name, "pty": pty, "async": asyn}
                     if r["hang"]:
                         hangs += 1
-                        fails.append({"case": case, "what": "did not end within 12 s"})
+                        fails.append({"case": case, "what": "did not end within 8 s"})
                         break
                     if r["outcome"] != want:
                         fails.append({"case": case, "what": "outcome %s, expected %s" % (r["outcome"], want)})
@@ -276,7 +298,7 @@ def real_soak(tier):
             fails.append({"case": {"zombies": len(other)},
                           "what": "zombie children left behind by runs in which no worker died"})
     return {"name": "real-soak", "evaluations": evals, "failures": fails[:8],
-            "note": "%d real runs over 13 classes (8 outcome classes, idle pipe as input stream, interrupt, late-joined and with-managed promise, disown) x pty x sync/async through Local; afterwards thread count "
+            "note": budget.note() + "%d real runs over 13 classes (8 outcome classes, idle pipe as input stream, interrupt, late-joined and with-managed promise, disown) x pty x sync/async through Local; afterwards thread count "
                     "%d -> %d, /proc/self/fd %d -> %d, zombies %d%s" % (evals, base_threads, th, base_fds, fds,
                                                                         len(z), note_z)}
 
@@ -319,13 +341,16 @@ except BaseException as e:
 '''
 
 
-def real_findings(tier):
+def real_findings(tier, budget):
     from invoke.runners import Local
     fails, evals = [], 0
     # F-C08a: pty + shell that cannot be exec'ed
     evals += 1
-    p = subprocess.run([sys.executable, "-c", SANDBOX % core.REPO], capture_output=True, text=True, timeout=60)
-    out = p.stdout
+    try:
+        p = subprocess.run([sys.executable, "-c", SANDBOX % core.REPO], capture_output=True, text=True, timeout=30)
+        out = p.stdout
+    except subprocess.TimeoutExpired:
+        p, out = None, "TIMEOUT"
     if "PARENT-RAISED" in out and "ESCAPED-CHILD" not in out:
         pass                                        # reported as a start failure: as the property demands
     elif "PARENT-RETURNED" in out and "ESCAPED-CHILD-RAISED" in out:
@@ -334,7 +359,7 @@ def real_findings(tier):
                               out.strip()[:200]})
     else:
         fails.append({"case": {"pty": True, "shell": "/nonexistent/shell"},
-                      "what": "unexpected behaviour: %r %r" % (out[:300], p.stderr[-300:])})
+                      "what": "unexpected behaviour: %r %r" % (out[:300], p.stderr[-300:] if p else "")})
 
     # F-C08b: KeyboardInterrupt between the reaping waitpid and the end of the wait loop
     class L(Local):
@@ -355,7 +380,7 @@ def real_findings(tier):
             return v
     for pty in (False, True):
         evals += 1
-        r = rc.run_real("true", runner_cls=L, hide=True, in_stream=False, pty=pty, bound=15)
+        r = rc.run_real("true", runner_cls=L, hide=True, in_stream=False, pty=pty, bound=10)
         if r["outcome"] == "Result":
             continue
         f = {"case": {"interrupt_after_reap": True, "pty": pty}, "what": "run() raised %s" % r["outcome"]}
@@ -388,7 +413,7 @@ def real_findings(tier):
     f0 = rc.fd_count()
     pids, fds_left = [], []
     for _ in range(6):
-        r = rc.run_real("true", hide=True, in_stream=False, pty=True, disown=True, bound=15)
+        r = rc.run_real("true", hide=True, in_stream=False, pty=True, disown=True, bound=8)
         pids.append(r.get("pid"))
         rn = r.pop("runner", None)
         if rn is not None and hasattr(rn, "parent_fd"):
@@ -425,8 +450,11 @@ def real_findings(tier):
 
     # F-C08f: pty=True while sys.stdout is a real file object that is not fd 1
     evals += 1
-    p = subprocess.run([sys.executable, "-c", SANDBOX_F % core.REPO], capture_output=True, text=True, timeout=60)
-    out = p.stdout + p.stderr
+    try:
+        p = subprocess.run([sys.executable, "-c", SANDBOX_F % core.REPO], capture_output=True, text=True, timeout=30)
+        out = p.stdout + p.stderr
+    except subprocess.TimeoutExpired:
+        out = "TIMEOUT"
     if "PARENT-OK" in out and "ESCAPED" not in out:
         pass
     elif "ESCAPED-CHILD" in out:
@@ -437,9 +465,12 @@ def real_findings(tier):
         fails.append({"case": {"pty": True, "sys.stdout": "open(tmpfile, 'w')"},
                       "what": "unexpected behaviour: %r" % out[:300]})
 
+    if not budget.allow("reproduction of known findings F-C08d/e/f"):
+        return {"name": "real-findings", "evaluations": evals, "failures": fails,
+                "note": budget.note() + "F-C08a, F-C08b and the F-C08c regression replayed on the real Local runner"}
     # F-C08d: a worker dies, the command ends later: the pty child is never waited for
     evals += 1
-    r = rc.run_real("echo hi; sleep 0.2", hide=True, in_stream=False, pty=True, watchers=[Boom()], bound=15)
+    r = rc.run_real("echo hi; sleep 0.2", hide=True, in_stream=False, pty=True, watchers=[Boom()], bound=10)
     time.sleep(0.5)
     st = rc.proc_state(r["pid"]) if r["pid"] else None
     if st == "Z":
@@ -453,7 +484,7 @@ def real_findings(tier):
     elif r["outcome"] != "ThreadException":
         fails.append({"case": {"cmd": "echo hi; sleep 0.2", "pty": True}, "what": "outcome %s" % r["outcome"]})
     return {"name": "real-findings", "evaluations": evals, "failures": fails,
-            "note": "the six C08 defects replayed on the real Local runner (F-C08a and F-C08f inside throw-away interpreters)"}
+            "note": budget.note() + "the C08 defects replayed on the real Local runner (F-C08a and F-C08f inside throw-away interpreters)"}
 
 
 TERMIOS = r'''
